@@ -1016,9 +1016,15 @@ def r19(ctx: Ctx):
             continue
           seen_any = True
           disj = lp.test.values if isinstance(lp.test, ast.BoolOp) and isinstance(lp.test.op, ast.Or) else [lp.test]
-          positive = {d.id for d in disj if isinstance(d, ast.Name)} | {
-              d.args[0].id for d in disj if isinstance(d, ast.Call) and unparse(d.func) in ('len', 'bool') and d.args
-              and isinstance(d.args[0], ast.Name)}
+          # a disjunct that mentions the list positively: `tasks`, `len(tasks)`, `len(tasks) > 0`, `tasks != []`
+          positive = set()
+          for d in disj:
+            if isinstance(d, ast.UnaryOp) and isinstance(d.op, ast.Not):
+              continue
+            if isinstance(d, ast.Compare) and any(isinstance(o, (ast.Eq, ast.LtE, ast.Lt)) for o in d.ops) and not (
+                isinstance(d.ops[0], ast.Lt) and isinstance(d.left, ast.Constant)):
+              continue      # `len(tasks) == 0`, `len(tasks) <= 0`: not a "non-empty" test
+            positive |= {y.id for y in ast.walk(d) if isinstance(y, ast.Name)}
           always = isinstance(lp.test, ast.Constant) and bool(lp.test.value)
           for w in sorted(work):
             n += 1
@@ -1046,6 +1052,8 @@ VARIANTS = [
       '      while not exhausted or tasks or running_tasks:', '      while not exhausted or running_tasks:', 'R-C06-19'),
     B('as-completed-loop-forgets-queued-retries', _O,
       '    while not exhausted or tasks or running_tasks:', '    while not exhausted or running_tasks:', 'R-C06-19'),
+    OK('iterate-loop-condition-with-len', _W,
+       '      while not exhausted or tasks or running_tasks:', '      while not exhausted or len(tasks) > 0 or running_tasks:'),
     OK('iterate-loop-condition-reordered', _W,
        '      while not exhausted or tasks or running_tasks:', '      while tasks or running_tasks or not exhausted:'),
     B('init-answer-not-raised', _U,
